@@ -13,6 +13,64 @@ pub mod extras {
         }
     }
 
+    /// a difference on a method that returns an integer-coded result also speaks for C13 (and the value for C02)
+    fn same_ir(rep: &mut Report, what: &str, direct: String, opaque: String) {
+        same(rep, what, direct.clone(), opaque.clone());
+        if direct != opaque {
+            for cls in ["c13", "c02"] {
+                rep.failures.push(format!("{{\"class\":\"{}\",\"def\":900000,\"cont\":\"{}\",\"variant\":0,\"s0\":0,\"msg\":\"result through the object: {} / direct: {}\"}}",
+                                          cls, what, opaque.replace('"', "'"), direct.replace('"', "'")));
+            }
+        }
+    }
+
+    // integer result codes: trait-level, method-level, opt-out and aliases (C13: "int_result, no_int_result and result aliases")
+    pub type AliasResult<T, E> = Result<T, E>;
+    #[cglue_trait]
+    #[int_result]
+    pub trait IrMix {
+        fn ir_pay(&self, v: i32) -> Result<u64, std::io::Error>;
+        fn ir_unit(&mut self, v: i32) -> Result<(), std::io::Error>;
+        #[no_int_result]
+        fn ir_plain(&self, v: i32) -> Result<u64, u64>;
+    }
+    #[cglue_trait]
+    #[int_result(AliasResult)]
+    pub trait IrAlias {
+        fn ia_pay(&self, v: i32) -> AliasResult<u64, std::io::Error>;
+        fn ia_unit(&self, v: i32) -> AliasResult<(), std::io::Error>;
+        #[no_int_result]
+        fn ia_plain(&self, v: i32) -> AliasResult<u64, u64>;
+    }
+    #[cglue_trait]
+    pub trait IrMethod {
+        #[int_result]
+        fn im_pay(&self, v: i32) -> Result<u64, std::io::Error>;
+        fn im_plain(&self, v: i32) -> Result<u64, u64>;
+    }
+    pub struct Irs(pub u64);
+    fn ir_val(base: u64, v: i32) -> Result<u64, std::io::Error> {
+        // even: success with a value derived from the state; odd: an OS error carrying v itself (positive and negative codes)
+        if v % 2 == 0 { Ok(base.wrapping_mul(31).wrapping_add(v as u64)) } else { Err(std::io::Error::from_raw_os_error(v)) }
+    }
+    impl IrMix for Irs {
+        fn ir_pay(&self, v: i32) -> Result<u64, std::io::Error> { ir_val(self.0, v) }
+        fn ir_unit(&mut self, v: i32) -> Result<(), std::io::Error> { self.0 += 1; ir_val(self.0, v).map(|_| ()) }
+        fn ir_plain(&self, v: i32) -> Result<u64, u64> { if v % 2 == 0 { Ok(self.0 + 5) } else { Err(v as u32 as u64) } }
+    }
+    impl IrAlias for Irs {
+        fn ia_pay(&self, v: i32) -> AliasResult<u64, std::io::Error> { ir_val(self.0 + 1, v) }
+        fn ia_unit(&self, v: i32) -> AliasResult<(), std::io::Error> { ir_val(self.0, v).map(|_| ()) }
+        fn ia_plain(&self, v: i32) -> AliasResult<u64, u64> { if v % 2 == 0 { Ok(self.0 + 6) } else { Err(v as u32 as u64) } }
+    }
+    impl IrMethod for Irs {
+        fn im_pay(&self, v: i32) -> Result<u64, std::io::Error> { ir_val(self.0 + 2, v) }
+        fn im_plain(&self, v: i32) -> Result<u64, u64> { if v % 2 == 0 { Ok(self.0 + 7) } else { Err(v as u32 as u64) } }
+    }
+    fn show<T: std::fmt::Debug>(r: Result<T, std::io::Error>) -> String {
+        format!("{:?}", r.map_err(|e| e.raw_os_error()))
+    }
+
     // generic trait (one instantiation per implementor so that the macros can infer it)
     #[cglue_trait]
     pub trait Gx<T: Copy + Into<i64> + 'static> {
@@ -138,6 +196,28 @@ pub mod extras {
             let mut d2 = At(3);
             let mut obj2 = trait_obj!(At(3) as Attrs);
             same(rep, "default overridden (&mut self, where Self: Sized)", format!("{} {}", d2.a_sized_mut(5), d2.a_sized_mut(6)), format!("{} {}", obj2.a_sized_mut(5), obj2.a_sized_mut(6)));
+        }
+        // integer result codes end to end
+        {
+            let codes = [0i32, 2, 1, 13, 0xfffe + 1, 0x10001, i32::MAX, -1, -21, i32::MIN + 1];
+            let mut d = Irs(9);
+            let mut o = Irs(9);
+            let mut obj = trait_obj!(&mut o as IrMix);
+            for v in codes {
+                same_ir(rep, "int_result payload", show(d.ir_pay(v)), show(obj.ir_pay(v)));
+                same_ir(rep, "int_result unit", show(d.ir_unit(v)), show(obj.ir_unit(v)));
+                same_ir(rep, "no_int_result under a trait-level int_result", format!("{:?}", d.ir_plain(v)), format!("{:?}", obj.ir_plain(v)));
+            }
+            let d = Irs(4);
+            let obj = trait_obj!(Irs(4) as IrAlias);
+            let objm = trait_obj!(Irs(4) as IrMethod);
+            for v in codes {
+                same_ir(rep, "int_result(alias) payload", show(d.ia_pay(v)), show(obj.ia_pay(v)));
+                same_ir(rep, "int_result(alias) unit", show(d.ia_unit(v)), show(obj.ia_unit(v)));
+                same_ir(rep, "no_int_result under int_result(alias)", format!("{:?}", d.ia_plain(v)), format!("{:?}", obj.ia_plain(v)));
+                same_ir(rep, "method-level int_result", show(d.im_pay(v)), show(objm.im_pay(v)));
+                same_ir(rep, "plain result next to a method-level int_result", format!("{:?}", d.im_plain(v)), format!("{:?}", objm.im_plain(v)));
+            }
         }
         // wrapped owned child with its own state; the parent stays usable
         {
